@@ -11,6 +11,7 @@ model is about *system-call order*:
                   them and are compared with the model's `recover`; the property oracle is evaluated on the
                   REAL result.
 """
+import difflib
 import json
 import os
 import re
@@ -41,7 +42,9 @@ THEOREMS = ["Banyan.C04." + t for t in [
     "recoverLegacy_leaves_tmp_manifest", "recover_removes_tmp_manifest"]] + ["Banyan.Tie.C04." + t for t in [
     "meta_name", "primary_name", "timestamps_name", "fv_name", "tf_name", "tfm_name", "tagType_name",
     "metadata_name", "snapshot_suffix", "tmp_suffix", "writeAtomic_order", "mustFlush_order", "mergeParts_order",
-    "mergeOut_metadata_last", "snapshot_atomic", "clean_after_flush", "clean_after_merge"]]
+    "mergeOut_metadata_last", "snapshot_atomic", "clean_after_flush", "clean_after_merge"]] + [
+    "Banyan.C04Seg." + t for t in ["seg_crash_recovers_atomic", "seg_as_written_loses_rows",
+                                   "seg_as_written_fails_to_open", "seg_as_written_violations"]]
 
 
 # ----------------------------------------------------------------------------------------------------------
@@ -944,6 +947,247 @@ def power_plan(ctx, h, rng, all_upto, samples, full_big=0):
 
 
 # ----------------------------------------------------------------------------------------------------------
+# segment level: the real storage.OpenTSDB / segmentController.create / open  (model: lean/Banyan/Model/C04Seg.lean)
+
+KNOWN_SEGMENT = "F72"  # used only if KNOWN_FINDINGS.txt lists `known: property=C04 id=F72 ...`
+SEG_DAY0 = (2024, 5, 1)
+
+
+def seg_real_name(i):
+    import datetime
+    d = datetime.date(*SEG_DAY0) + datetime.timedelta(days=i)
+    return "seg-%04d%02d%02d" % (d.year, d.month, d.day)
+
+
+def seg_meta_bytes(i):
+    import datetime
+    d = datetime.date(*SEG_DAY0) + datetime.timedelta(days=i + 1)
+    return b'{"version":"%s","endTime":"%04d-%02d-%02dT00:00:00Z"}' % (SEG_VERSION.encode(), d.year, d.month, d.day)
+
+
+SEG_VERSION = "1.5.0"   # replaced by what the traced run really wrote
+
+
+def seg_abs(p):
+    """real path below <root> -> model path, or None for what the model leaves out (index directories, lock)"""
+    if p in ("db", "db/"):
+        return "."
+    if not p.startswith("db/seg-"):
+        return None
+    parts = p[3:].split("/")
+    if any(x in ("sidx", "external-segment-temp") for x in parts):
+        return None
+    import datetime
+    try:
+        d = datetime.date(int(parts[0][4:8]), int(parts[0][8:10]), int(parts[0][10:12]))
+    except ValueError:
+        return None
+    i = (d - datetime.date(*SEG_DAY0)).days
+    return "/".join(["seg%d" % i] + parts[1:])
+
+
+def seg_real(p):
+    parts = p.split("/")
+    return "/".join(["db", seg_real_name(int(parts[0][3:]))] + parts[1:])
+
+
+def seg_tokens(ap, data):
+    """model tokens of what the real run wrote to model path `ap`"""
+    global SEG_VERSION
+    if ap.endswith("/data"):
+        return "7" if data == b"rows" else None
+    if ap.endswith("/metadata") or ap.endswith("/metadata.tmp"):
+        i = int(ap.split("/")[0][3:])
+        try:
+            j = json.loads(data.decode())
+            SEG_VERSION = j["version"]
+        except Exception:
+            return None
+        return "1.%d" % (i + 2) if data == seg_meta_bytes(i) else None
+    return None
+
+
+def seg_bytes(ap, toks):
+    """real bytes of model path `ap` holding the tokens `toks` ('-' empty, a proper prefix = the first half)"""
+    if toks == "-":
+        return b""
+    if ap.endswith("/data"):
+        return b"rows"
+    i = int(ap.split("/")[0][3:])
+    full = seg_meta_bytes(i)
+    return full if toks == "1.%d" % (i + 2) else full[:len(full) // 2]
+
+
+def segment_stream(ctx, R, tier):
+    """trace tie for `segmentController.create`, then every crash outcome of the model materialised and opened by
+    the real OpenTSDB; correspondence with the model's `openSegs` and the property oracle on the real result."""
+    k = 2 if tier == "quick" else 3
+    root = os.path.join(ctx.scratch, "segrun")
+    os.makedirs(root)
+    tr = root + ".trace"
+    p = subprocess.run(["strace", "-f", "-y", "-s", "1000000", "-xx", "-o", tr, "-e", "trace=" + STRACE_CALLS,
+                        ctx.go, "segrun", root, str(k)], stdout=subprocess.PIPE, stderr=subprocess.PIPE, text=True,
+                       env=vlib.goenv(), timeout=300)
+    ev = parse_strace(tr, root)
+    os.unlink(tr)
+    shutil.rmtree(root, ignore_errors=True)
+    if p.returncode != 0:
+        R.oblige("segment trace tie: create() = model step list", False, "driver failed: " + p.stderr[-300:])
+        return
+    real = []
+    for mk, es in split_segments(ev):
+        if mk == "?":
+            continue   # OpenTSDB itself (mkdir db, lock file), before the first segment
+        for e in es:
+            if e[0] in ("mark", "other"):
+                continue
+            ap = seg_abs(e[1])
+            if ap is None or (e[0] in ("rename", "link") and seg_abs(e[2]) is None):
+                continue
+            if e[0] == "write":
+                real.append("write %s %s" % (ap, seg_tokens(ap, e[2]) or "?" + e[2][:40].hex()))
+            elif e[0] in ("rename", "link"):
+                real.append("%s %s %s" % (e[0], ap, seg_abs(e[2])))
+            elif e[0] == "close" and ap.endswith("/metadata"):
+                continue   # as written the descriptor of `metadata` is never closed; a close has no effect anyway
+            else:
+                real.append("%s %s" % (e[0], ap))
+    models = {a: ctx.lean_lines(["segsteps %d %d" % (a, k)])[0].split("; ") for a in (0, 1)}
+    variant = next((a for a in (0, 1) if [x for x in models[a] if not x.endswith("/metadata") or not x.startswith("close")] == real), None)
+    R.count("segment-trace-steps", len(real))
+    if variant is None:
+        d = [l for l in difflib.unified_diff(models[0], real, lineterm="", n=0) if not l.startswith(("---", "+++"))]
+        R.oblige("segment trace tie: create() = model step list", False, " ".join(d)[:600])
+        R.violation("trace", "segmentController.create: " + " ".join(d)[:600], {"real": real, "model": models[0]},
+                    no_input=True)
+        return
+    R.oblige("segment trace tie: create() = model step list (%s, %d segments)" % (
+        "metadata through WriteAtomic" if variant else "as written: metadata not fsynced", k), True)
+    steps = models[variant]
+    lines = ["segstates %d %d %d" % (variant, k, c) for c in range(len(steps) + 1)]
+    outs = ctx.lean_lines(lines)
+    seen = {}
+    for c, o in enumerate(outs):
+        for item in o.split(" ## "):
+            mode, rest = item[0], item[2:]
+            tree_s, rec_s = rest.split(" => ")
+            R.count("segment-states:" + ("kill" if mode == "K" else "power"))
+            if tree_s not in seen:
+                seen[tree_s] = (c, mode, rec_s)
+    # directed trees: what `open()` must cope with whatever protocol wrote the directory (older versions, the
+    # protocol before/after repair F72): a complete segment next to a half-born / torn one
+    base = "seg0/ seg0/metadata=1.2 seg0/shard-0/ seg0/shard-0/data=7"
+    directed = [base + " " + v for v in (
+        "seg1/", "seg1/ seg1/metadata=-", "seg1/ seg1/metadata=- seg1/shard-0/", "seg1/ seg1/metadata.tmp=1.3",
+        "seg1/ seg1/metadata.tmp=1", "seg1/ seg1/metadata=1.3 seg1/metadata.tmp=1", "seg1/ seg1/metadata=1",
+        "seg1/ seg1/metadata=1.3", "seg1/ seg1/metadata=1.3 seg1/shard-0/ seg1/shard-0/data=7")]
+    directed = [" ".join(sorted(t.split(" "))) for t in directed]
+    new = [t for t in directed if t not in seen]
+    for t, r in zip(new, ctx.lean_lines(["segrec " + t for t in new])):
+        seen[t] = (-1, "D", r)
+        R.count("segment-states:directed")
+    glines, todo = [], []
+    for j, (tree_s, (c, mode, rec_s)) in enumerate(sorted(seen.items())):
+        d = os.path.join(ctx.scratch, "seg%d" % j)
+        ns, fb = {"db": "D"}, {}
+        for ent in tree_s.split(" "):
+            if not ent:
+                continue
+            if ent.endswith("/"):
+                ns[seg_real(ent[:-1])] = "D"
+            else:
+                ap, toks = ent.split("=")
+                ns[seg_real(ap)] = ap
+                fb[ap] = seg_bytes(ap, toks)
+        materialise(d, ns, fb)
+        todo.append((d, tree_s, c, mode, rec_s, ns, fb))
+        glines.append("segrec %s%s" % (d, " cont" if j % 3 == 0 else ""))
+    gouts = ctx.go_lines(glines)
+    dis, bad = [], 0
+    for (d, tree_s, c, mode, rec_s, ns, fb), g in zip(todo, gouts):
+        shutil.rmtree(d, ignore_errors=True)
+        R.evaluations += 1
+        R.nontrivial.add("seg " + tree_s)
+        # normalise both sides: ('ERR',) | ('OK', loaded ids, tree names)
+        if rec_s.startswith("ERR"):
+            mnorm = ("ERR",)
+        else:
+            ids_s, t_s = rec_s[3:].split(" |", 1)
+            mnorm = ("OK", tuple(int(x) for x in ids_s.split(",") if x),
+                     tuple(sorted(x.split("=")[0] for x in t_s.split(" ") if x)))
+        cont = None
+        if g.startswith("OK "):
+            body = g[3:]
+            if " cont:" in body:
+                body, cont = body.split(" cont:", 1)
+            segs_s, t_s = body.split(" tree=", 1)
+            loaded = []
+            tabs = {}
+            for x in segs_s[len("segs="):].split(","):
+                if x:
+                    nm, nt = x.split(":")
+                    i = int(seg_abs("db/" + nm)[3:])
+                    loaded.append(i)
+                    tabs[i] = int(nt)
+            names = sorted(a + ("/" if x.endswith("/") else "") for x in t_s.split(",") if x
+                           for a in [seg_abs("db/" + x.rstrip("/"))] if a is not None)
+            gnorm = ("OK", tuple(sorted(loaded)), tuple(names))
+        else:
+            gnorm, loaded, names, tabs = ("ERR",), [], [], {}
+        R.count("segment-recovered:" + ("ERR" if gnorm == ("ERR",) else "%d-segments" % len(loaded)))
+        if gnorm != mnorm:
+            dis.append((tree_s, g[:300], rec_s[:300]))
+        # the property, on the REAL result
+        rows = sorted(int(e.split("/")[0][3:]) for e in tree_s.split(" ") if e.endswith("/shard-0/data=7"))
+        if mode == "D":
+            # a directed tree is not a crash state of the protocol: only segments with a complete metadata count,
+            # and a truncated metadata is allowed to refuse (that is what the model of `open()` says)
+            rows = [i for i in rows if ("seg%d/metadata=1.%d" % (i, i + 2)) in tree_s.split(" ")]
+        v = None
+        if gnorm == ("ERR",) and mode == "D" and mnorm == ("ERR",):
+            pass
+        elif gnorm == ("ERR",):
+            v = "OpenTSDB does not open %s: %s" % ("on a half-born segment" if mode == "D" else "after the crash", g[:200])
+        else:
+            lost = [i for i in rows if i not in loaded or ("seg%d/shard-0/data" % i) not in names or tabs.get(i) != 1]
+            half = [n for n in names if n.count("/") == 1 and n.endswith("/") and int(n[3:-1]) not in loaded]
+            if lost:
+                v = "segments %s held durably written table data and are gone after start-up (loaded: %s)" % (
+                    [seg_real_name(i) for i in lost], [seg_real_name(i) for i in loaded])
+            elif half:
+                v = "half-born segment directories survive start-up: %s" % half
+            elif cont is not None:
+                if not cont.startswith("segs="):
+                    v = "the re-opened database is not usable: " + cont[:200]
+                else:
+                    again = sorted(int(seg_abs("db/" + x.split(":")[0])[3:]) for x in cont[5:].split(",") if x)
+                    if again != sorted(loaded + [15]):
+                        v = "after one more segment and a restart the database has %s, expected %s" % (again, sorted(loaded + [15]))
+        if v is not None:
+            files = {q: (None if val == "D" else fb[val].hex()) for q, val in ns.items()}
+            rp = {"stream": "segment", "cut": c, "mode": {"K": "kill", "P": "power", "D": "directed"}[mode],
+                  "model_tree": tree_s,
+                  "tree": files, "impl_output": g, "model_output": rec_s,
+                  "how": "materialise `tree` below a directory <d>, then `echo segrec <d> | drv_c04` (real OpenTSDB)"}
+            if KNOWN_SEGMENT in {x["id"] for x in vlib.load_known(PROP)} and not variant and mode != "D":
+                R.known_hits.setdefault(KNOWN_SEGMENT, v + " | crash tree: " + tree_s)
+                R.count("known:" + KNOWN_SEGMENT)
+            else:
+                bad += 1
+                cls = re.sub(r"[^a-z ]", "", v.lower())[:40].strip()
+                R.count("oracle:" + cls)
+                same = sum(1 for x in R.violations if x["kind"] == "oracle" and
+                           re.sub(r"[^a-z ]", "", x["detail"].lower())[:40].strip() == cls)
+                if same < 2:
+                    R.violation("oracle", v, rp)
+    R.oblige("segment recovery tie: real OpenTSDB = model openSegs on %d crash trees" % len(todo), not dis,
+             "%d disagreements; first: tree=%s impl=%s model=%s" % ((len(dis),) + dis[0]) if dis else "")
+    if dis and not bad:
+        R.violation("correspondence", "segment level: model and implementation disagree: tree=%s impl=%s model=%s" % dis[0],
+                    {"stream": "segment", "model_tree": dis[0][0]}, no_input=True)
+
+
+# ----------------------------------------------------------------------------------------------------------
 # evaluating crash states
 
 KNOWN_LEFTOVER = "F14"  # used only if KNOWN_FINDINGS.txt lists `known: property=C04 id=F14 ...`
@@ -1213,7 +1457,7 @@ def eval_mutated(ctx, h, rng, n):
 # ----------------------------------------------------------------------------------------------------------
 # the check
 
-LEAN_MODULES = ["Banyan.Props.C04", "Banyan.Tie.C04"]
+LEAN_MODULES = ["Banyan.Props.C04", "Banyan.Props.C04Seg", "Banyan.Tie.C04"]
 
 TRUSTED = [
     "Lean 4.33.0 kernel",
@@ -1276,6 +1520,7 @@ def main(tier):
         vlib.static_stage(_Spec, R)
         ctx = Ctx(tier, R)
         ctx.disagreements = []
+        segment_stream(ctx, R, tier)
         nrand, maxb, all_upto, samples, nmut, full_big = {"quick": (2, 4, 3, 5, 10, 0),
                                                             "thorough": (36, 8, 6, 32, 150, 2)}[tier]
         hists = [list(x) for x in DIRECTED]
